@@ -1,13 +1,13 @@
 SPECIFICATION MSpec
 CONSTANTS
-  KeySet = {1, 2, 3, 4, 5, 6, 7, 8, 9, 10}
+  KeySet = {1, 2, 3, 4, 5}
   VerSet = {1}
-  PivotSet = {0, 1, 2, 3, 4, 5, 6, 7, 8, 9, 10, 11}
+  PivotSet = {0, 1, 2, 3, 4, 5, 6}
   NSet = {0, 1, 3, 100}
   DegSet = {2}
   MaxH = 1
   Apis = {"inner"}
-  Deviation = "steal_left_drops_child"
+  Deviation = "no_root_collapse"
 INVARIANTS TypeOK MechRefines ScanRefines
 PROPERTIES MechReplies
 VIEW MView
